@@ -28,20 +28,38 @@ def isProgress : Act → Bool
   | .loadDone .. => false
   | .explicitUnload _ => false
   | .setPing .. => false
+  | .setPingBlock _ => false
+  | .pingDone _ ok => !ok          -- a parked health check times out by itself (10 s): `pingDone r false`
   | _ => true
 
 /-- nothing internal is enabled: both loops, every helper goroutine and every timer are done -/
 def Stuck (s : State) : Prop := ∀ a, isProgress a = true → step Variant.good s a = none
 
-theorem unheld_of_no_loaders {s : State} (h : InvAll s) (hl : s.loaders = []) (r : Rid) :
-    (s.runners r).refMuHeld = false := by
-  by_cases hr : r < s.nRunners
-  · cases hh : (s.runners r).refMuHeld with
+theorem unlocked_of_stuck {s : State} (h : InvAll s) (hl : s.loaders = []) (hs : Stuck s) (r : Rid) :
+    (s.runners r).locked = false := by
+  have h1 : (s.runners r).refMuHeld = false := by
+    by_cases hr : r < s.nRunners
+    · cases hh : (s.runners r).refMuHeld with
+      | false => rfl
+      | true =>
+        have := h.base.i2.ldr r hr hh
+        rw [hl] at this; simp at this
+    · rw [h.i7.z r (Nat.le_of_not_lt hr)]
+  have h2 : (s.runners r).pingHeld = false := by
+    cases hh : (s.runners r).pingHeld with
     | false => rfl
     | true =>
-      have := h.base.i2.ldr r hr hh
-      rw [hl] at this; simp at this
-  · rw [h.i7.z r (Nat.le_of_not_lt hr)]
+      exfalso
+      have hp := h.i7.ph r hh
+      unfold PPC.isPinging at hp
+      split at hp
+      · rename_i q r' heq
+        have hrr : r' = r := by simpa using hp
+        subst hrr
+        have := hs (.pingDone r' false) rfl
+        simp [step, heq] at this
+      · cases hp
+  simp [Runner.locked, h1, h2]
 
 /-- with no load in flight the completed loop always has a move when it is not idle -/
 theorem cpc_idle_of_stuck {s : State} (h : InvAll s) (hl : s.loaders = []) (hs : Stuck s) : s.cpc = .idle := by
@@ -49,10 +67,10 @@ theorem cpc_idle_of_stuck {s : State} (h : InvAll s) (hl : s.loaders = []) (hs :
   | idle => rfl
   | fin q r =>
     have := hs .cFin rfl
-    simp [step, hc, unheld_of_no_loaders h hl r] at this
+    simp [step, hc, unlocked_of_stuck h hl hs r] at this
   | exp r =>
     have := hs .cExp rfl
-    simp only [step, hc, unheld_of_no_loaders h hl r] at this
+    simp only [step, hc, unlocked_of_stuck h hl hs r] at this
     simp at this
     split at this <;> simp at this
   | vram r =>
@@ -83,7 +101,7 @@ theorem queues_empty_of_stuck {s : State} (h : InvAll s) (hl : s.loaders = []) (
     | nil => rfl
     | cons r rest =>
       have := hs (.timerCb r) rfl
-      simp [step, hq, unheld_of_no_loaders h hl r] at this
+      simp [step, hq, unlocked_of_stuck h hl hs r] at this
 
 /-- **Drain.** -/
 theorem drain {mr mq ds : Nat} {s : State} (hreach : Reach Variant.good (Sched.init mr mq ds) s)
@@ -100,7 +118,9 @@ theorem drain {mr mq ds : Nat} {s : State} (hreach : Reach Variant.good (Sched.i
     | false =>
       exfalso
       have hw := h.i6.w r hrn hcl
-      have hun := unheld_of_no_loaders h hl r
+      have hun : (s.runners r).refMuHeld = false := by
+        have := unlocked_of_stuck h hl hs r
+        simp [Runner.locked] at this; exact this.1
       rcases hw with hw | hw | hw | hw | hw | hw | hw
       · -- held: some holder, whose finish event is in flight
         have hc2 := h.base.i4.c2 r hrn
